@@ -319,6 +319,9 @@ def symbolic_attractor_test(
     while not all_done:
         all_done = True
 
+        # True if the size heuristic below postponed the growth of `reach_set`.
+        growth_declined = False
+
         # Saturate reach_set with currently selected variables, but only if
         # it's symbolic size is smaller than that of the avoid set (reach set
         # tends to grow quite large and we'd like to avoid that).
@@ -350,6 +353,7 @@ def symbolic_attractor_test(
                                 f"[{node_id}] > Saturation({len(saturated_vars)}) Incremented forward reach set: {reach_set}"
                             )
                         break
+                    growth_declined = True
 
         if avoid is not None:
             # If `avoid` is not `None`, we also want to expand it backwards.
@@ -444,6 +448,17 @@ def symbolic_attractor_test(
                 )
 
             break
+        else:
+            if growth_declined:
+                # The growth of `reach_set` was postponed, but no remaining variable
+                # can currently make progress, so postponing it again would repeat
+                # this iteration forever. Treat the remaining variables as saturated
+                # (they have no successors right now), which lets `reach_set` grow.
+                saturated_vars = sort_variable_list(
+                    saturated_vars + conflict_vars + other_vars
+                )
+                conflict_vars = []
+                other_vars = []
 
     if sd.config["debug"]:
         print(f"[{node_id}] > Reachability completed with {reach_set}.")
